@@ -498,6 +498,29 @@ fn string_from_utf8''')]},
     {'name': 'L4 a native error path records a throw site', 'prop': 'C17', 'expect': 'L4 / error_ip is given an address only by',
      'edits': [(VM, "    fn call_impl(&mut self) -> Result<(), Error> {\n        let arg_count = self.read_byte() as usize;",
                 "    fn call_impl(&mut self) -> Result<(), Error> {\n        self.active_fiber_mut().error_ip = Some(self.ip);\n        let arg_count = self.read_byte() as usize;")]},
+    # ---- round-3 rules ------------------------------------------------------------------------------
+    {'name': 'U6 whole-range slice hands back the receiver', 'prop': 'C13', 'expect': 'U6 / slice_get_item / ObjRange index',
+     'edits': [(VM, "                let (begin, end) = r.make_bounded_range(elems_len, kind)?;\n                Ok(IndexResult::Slice(Vec::from(&elements[begin..end])))",
+                "                let (begin, end) = r.make_bounded_range(elems_len, kind)?;\n                if end - begin == elements.len() {\n                    return Ok(IndexResult::Scalar(self.peek(1)));\n                }\n                Ok(IndexResult::Slice(Vec::from(&elements[begin..end])))")]},
+    {'name': 'D2 to_num filters what parse accepted', 'prop': 'C19', 'expect': 'D2 / string_to_num: the number is parse',
+     'edits': [(CORE, "    let num = string.parse::<f64>().or_else(|_| {\n        Err(error!(\n            ErrorKind::ValueError,\n            \"Unable to parse number from '{}'.\",\n            vm.peek(0)\n        ))\n    })?;",
+                "    let has_digit = string.as_bytes().iter().any(|b| b.is_ascii_digit());\n    let num = string\n        .parse::<f64>()\n        .ok()\n        .filter(|_| has_digit)\n        .ok_or_else(|| {\n            error!(\n                ErrorKind::ValueError,\n                \"Unable to parse number from '{}'.\",\n                vm.peek(0)\n            )\n        })?;")]},
+    {'name': 'D2 to_num rejects before parsing', 'prop': 'C19', 'expect': 'D2 / string_to_num: the number is parse',
+     'edits': [(CORE, "    let num = string.parse::<f64>().or_else(|_| {", "    if !string.as_bytes().iter().any(|b| b.is_ascii_digit()) {\n        return Err(error!(ErrorKind::ValueError, \"Unable to parse number.\"));\n    }\n    let num = string.parse::<f64>().or_else(|_| {")]},
+    {'name': 'M4c Parser::new asks the registry for the module', 'prop': 'C14', 'expect': 'M4c / compile() cannot reach Vm::module',
+     'edits': [(COMP, "fn synchronise(&mut self) {", "fn synchronise(&mut self) {\n        if self.module_path.is_empty() {\n            let _ = self.vm.module(\"main\");\n        }")]},
+    {'name': 'N5 compile resets the range cache', 'prop': 'C15', 'expect': 'N5 / Vm.range_cache',
+     'edits': [(VM, "    pub(crate) fn module(&mut self, path: &str) -> Gc<RefCell<ObjModule>> {", "    pub(crate) fn forget_ranges(&mut self) {\n        self.range_cache = Vec::new();\n    }\n\n    pub(crate) fn module(&mut self, path: &str) -> Gc<RefCell<ObjModule>> {"),
+               (COMP, "fn synchronise(&mut self) {", "fn synchronise(&mut self) {\n        self.vm.forget_ranges();")]},
+    {'name': 'L7 upvalue-limit error reported at the name token (may be synthetic)', 'prop': 'C17', 'expect': 'L7 / resolve_upvalue -> error_at',
+     'edits': [(COMP, "                        Err(error) => {\n                            self.compiler_error(error);\n                            return None;", "                        Err(_) => {\n                            self.error_at(name.clone(), \"Too many closure variables in function.\");\n                            return None;")]},
+    {'name': 'S6 finishing fiber keeps its open upvalues', 'prop': 'C09', 'expect': 'S6 / yarel::vm::Vm::return_impl / frames.pop',
+     'edits': [(VM, "        let result = self.pop();\n        self.active_fiber_mut().close_upvalues_for_frame();\n", "        let result = self.pop();\n"),
+               (VM, "        self.load_frame();\n        self.active_fiber_mut().stack.truncate(prev_stack_size);", "        self.load_frame();\n        self.active_fiber_mut().close_upvalues(prev_stack_size);\n        self.active_fiber_mut().stack.truncate(prev_stack_size);")]},
+    {'name': 'E6 integrality decided with fract()', 'prop': 'C05', 'expect': 'E6 / validate_integer',
+     'edits': [(UTILS, "n.trunc() != n", "n.fract() != 0.0")]},
+    {'name': 'X13 return emits a single JumpFinally again (regression of 5316737)', 'prop': 'C08', 'expect': 'X13 / return through nested try statements',
+     'edits': [(COMP, "        for _ in 0..self.compiler().try_depth {\n            self.emit_byte(OpCode::JumpFinally as u8);\n        }", "        if self.compiler().try_depth > 0 {\n            self.emit_byte(OpCode::JumpFinally as u8);\n        }")]},
     # ---- round-2 rules ------------------------------------------------------------------------------
     {'name': 'X8 in_try_block restored only after the catch block', 'prop': 'C08', 'expect': 'X8 / exactly the try body',
      'edits': [(COMP, "        self.end_scope();\n        self.compiler_mut().in_try_block = prev_in_try_block;\n\n        self.emit_byte(OpCode::PopExcHandler as u8);",
@@ -541,6 +564,13 @@ fn string_from_utf8''')]},
 ]
 
 BENIGN = [
+    {'name': 'integrality decided with floor()', 'prop': 'C13',
+     'edits': [(UTILS, "n.trunc() != n", "n.floor() != n")]},
+    {'name': 'to_num maps the parse error with map_err', 'prop': 'C19',
+     'edits': [(CORE, "    let num = string.parse::<f64>().or_else(|_| {\n        Err(error!(\n            ErrorKind::ValueError,\n            \"Unable to parse number from '{}'.\",\n            vm.peek(0)\n        ))\n    })?;",
+                "    let num = string.parse::<f64>().map_err(|_| {\n        error!(\n            ErrorKind::ValueError,\n            \"Unable to parse number from '{}'.\",\n            vm.peek(0)\n        )\n    })?;")]},
+    {'name': 'slice copied with to_vec', 'prop': 'C13',
+     'edits': [(VM, "Ok(IndexResult::Slice(Vec::from(&elements[begin..end])))", "Ok(IndexResult::Slice(elements[begin..end].to_vec()))")]},
     {'name': 'VecIter::next saves the cursor, advances, then reads at the saved index', 'prop': 'C18',
      'edits': [(OBJ, "        let ret = borrowed_vec.elements[self.current];\n        self.current += 1;\n        Some(ret)",
                 "        let i = self.current;\n        self.current = i + 1;\n        Some(borrowed_vec.elements[i])")]},
